@@ -308,7 +308,10 @@ def _history(ctx, p, s, obs):
         if len(ms) < 2:
             break
         before = dict(_leaves(pmodel.observed(a)))
-        ms[which].mult = ms[which].mult + 7
+        try:
+            ms[which].mult = ms[which].mult + 7
+        except Exception:
+            return      # modification objects that refuse editing cannot be shared harmfully: clause not applicable
         after = dict(_leaves(pmodel.observed(a)))
         changed = sorted(set(k for k in set(before) | set(after) if before.get(k) != after.get(k)))
         # one [val, mult] pair moves inside its sorted list at most: the multiset of leaves changes by exactly one value
@@ -322,12 +325,15 @@ def _history(ctx, p, s, obs):
     st, a = lib.call(p.parse, s)
     if st != 'ok' or hasattr(a, 'annotations'):
         return
-    for m in _mods_of(a):
-        m.mult = m.mult + 5
-        if isinstance(m.val, str):
-            m.val = m.val + 'x'
-        else:
-            m.val = m.val + 1
+    try:
+        for m in _mods_of(a):
+            m.mult = m.mult + 5
+            if isinstance(m.val, str):
+                m.val = m.val + 'x'
+            else:
+                m.val = m.val + 1
+    except Exception:
+        return
     st, a2 = lib.call(p.parse, s)
     ctx.evals += 2
     if st != 'ok' or pmodel.observed(a2) != obs:
